@@ -1,3 +1,282 @@
+// SIM-M: a heap whose layout is a pure function of the run seed.
+//
+// The 'plain' simulator executables define the malloc family themselves
+// (exported with -rdynamic so that libxml2, elfutils and libstdc++ use them
+// too).  Until simalloc_activate() is called every request is forwarded to
+// glibc.  After activation (in the forked run child, before the tool's main)
+// new blocks come from a private arena whose base address, sub-arena choice,
+// inter-block padding, free-list reuse order and poison bytes are all drawn
+// from one PRNG seeded by the run seed.  Blocks allocated before activation
+// stay glibc's and are freed through glibc.
 #include "simalloc.h"
-void simalloc_activate(uint64_t, int) {}
-void simalloc_stats(long *a, long *b, uint64_t *h) { *a = 0; *b = 0; *h = 0; }
+#include "prng.h"
+#include <stddef.h>
+#include <stdint.h>
+#include <string.h>
+#include <errno.h>
+#include <unistd.h>
+#include <dlfcn.h>
+#include <sys/mman.h>
+
+extern "C" {
+void *__libc_malloc(size_t);
+void __libc_free(void *);
+void *__libc_calloc(size_t, size_t);
+void *__libc_realloc(void *, size_t);
+void *__libc_memalign(size_t, size_t);
+}
+
+namespace {
+
+enum { NARENA = 4, NCLASS = 48 };
+const size_t ARENA_BYTES = (size_t) 24 << 30;     // virtual reservation per sub-arena (MAP_NORESERVE)
+const uint64_t MAGIC = 0x51a110c8d00dfeedULL;
+
+struct Header            // sits immediately before the user pointer
+{
+  uint64_t magic;
+  uint32_t size;         // user size
+  uint16_t klass;        // size class, 0xffff = large
+  uint8_t  arena;
+  uint8_t  pad_;
+  uint64_t block;        // address of the start of the block (for aligned allocations)
+  uint64_t cap;          // usable capacity from the user pointer
+};
+
+struct FreeNode { FreeNode *next; };
+
+bool g_active;
+Prng g_rng(1);
+char *g_base[NARENA], *g_cur[NARENA], *g_end[NARENA];
+FreeNode *g_free[NARENA][NCLASS];
+FreeNode *g_free_tail[NARENA][NCLASS];
+int g_reuse_mode;        // 0 LIFO, 1 FIFO, 2 mostly LIFO with random skips
+int g_poison_new, g_poison_free;
+bool g_poison;
+int g_lock;
+long g_allocs, g_bytes;
+uint64_t g_addr_hash = FNV_INIT;
+size_t (*g_real_usable)(void *);
+
+inline void lock() { while (__atomic_exchange_n(&g_lock, 1, __ATOMIC_ACQUIRE)) {} }
+inline void unlock() { __atomic_store_n(&g_lock, 0, __ATOMIC_RELEASE); }
+
+inline bool ours(const void *p)
+{
+  for (int a = 0; a < NARENA; ++a)
+    if (g_base[a] && (const char *) p >= g_base[a] && (const char *) p < g_end[a]) return true;
+  return false;
+}
+
+// size classes: 16-byte steps up to 256, then powers of two with 4 steps each
+size_t class_size(int k)
+{
+  if (k < 16) return (size_t) (k + 1) * 16;
+  int e = (k - 16) / 4, s = (k - 16) % 4;
+  size_t base = (size_t) 256 << e;
+  return base + (base / 4) * (size_t) (s + 1);
+}
+
+int size_class(size_t n)
+{
+  if (n <= 256) return n == 0 ? 0 : (int) ((n - 1) / 16);
+  for (int k = 16; k < NCLASS; ++k)
+    if (class_size(k) >= n) return k;
+  return -1;
+}
+
+void *carve(int a, size_t bytes)
+{
+  // random inter-block padding, 16-byte granular
+  size_t pad = (size_t) g_rng.below(5) * 16;
+  if (g_rng.chance(1, 64)) pad += (size_t) g_rng.below(64) * 16;
+  char *p = g_cur[a] + pad;
+  if (p + bytes > g_end[a]) return 0;
+  g_cur[a] = p + bytes;
+  return p;
+}
+
+void *alloc_block(size_t n, size_t align)
+{
+  if (align < 16) align = 16;
+  int a = (int) g_rng.below(NARENA);
+  size_t need = n + sizeof(Header) + (align > 16 ? align : 0);
+  int k = align > 16 ? -1 : size_class(n);
+  char *block = 0;
+  size_t cap;
+  if (k >= 0)
+    {
+      cap = class_size(k);
+      FreeNode *f = g_free[a][k];
+      if (f)
+	{
+	  bool take = true;
+	  if (g_reuse_mode == 2 && g_rng.chance(1, 4)) take = false; // sometimes leave the free block alone
+	  if (take)
+	    {
+	      g_free[a][k] = f->next;
+	      if (!g_free[a][k]) g_free_tail[a][k] = 0;
+	      block = (char *) f;
+	    }
+	}
+      if (!block) block = (char *) carve(a, cap + sizeof(Header));
+    }
+  else
+    {
+      cap = (need + 4095) & ~(size_t) 4095;
+      block = (char *) carve(a, cap);
+      cap -= sizeof(Header);
+    }
+  if (!block) { errno = ENOMEM; return 0; }
+  char *user = block + sizeof(Header);
+  if (align > 16)
+    {
+      uintptr_t u = ((uintptr_t) user + align - 1) & ~(uintptr_t) (align - 1);
+      user = (char *) u;
+      cap = (size_t) (block + ((need + 4095) & ~(size_t) 4095) - user);
+    }
+  Header *h = (Header *) (user - sizeof(Header));
+  h->magic = MAGIC; h->size = (uint32_t) (n > 0xffffffffu ? 0xffffffffu : n); h->klass = (uint16_t) (k >= 0 ? k : 0xffff);
+  h->arena = (uint8_t) a; h->block = (uint64_t) (uintptr_t) block; h->cap = cap;
+  if (g_poison) memset(user, g_poison_new, n);
+  ++g_allocs; g_bytes += (long) n;
+  if (g_allocs <= 4096) { uintptr_t u = (uintptr_t) user; g_addr_hash = fnv1a(g_addr_hash, &u, sizeof u); }
+  return user;
+}
+
+void free_block(void *p)
+{
+  Header *h = (Header *) ((char *) p - sizeof(Header));
+  if (h->magic != MAGIC) return;            // not ours after all (or double free): leave it
+  int a = h->arena, k = h->klass;
+  size_t cap = (size_t) h->cap;
+  h->magic = 0;
+  if (k == 0xffff)
+    {
+      // large block: give the pages back so that a stale pointer faults
+      char *b = (char *) (uintptr_t) h->block;
+      size_t len = ((char *) p + cap) - b;
+      madvise(b, len & ~(size_t) 4095, MADV_DONTNEED);
+      return;
+    }
+  if (g_poison) memset(p, g_poison_free, cap);
+  FreeNode *f = (FreeNode *) (uintptr_t) h->block;
+  f->next = 0;
+  if (g_reuse_mode == 1)
+    {
+      if (g_free_tail[a][k]) g_free_tail[a][k]->next = f; else g_free[a][k] = f;
+      g_free_tail[a][k] = f;
+    }
+  else
+    {
+      f->next = g_free[a][k];
+      g_free[a][k] = f;
+      if (!g_free_tail[a][k]) g_free_tail[a][k] = f;
+    }
+}
+
+size_t usable(void *p)
+{
+  Header *h = (Header *) ((char *) p - sizeof(Header));
+  return h->magic == MAGIC ? (size_t) h->cap : 0;
+}
+
+} // namespace
+
+void simalloc_activate(uint64_t seed, int poison)
+{
+  g_rng.reseed(seed ^ 0x6d616c6c6f63ULL);
+  g_real_usable = (size_t (*)(void *)) dlsym(RTLD_NEXT, "malloc_usable_size");
+  // the arena base is part of the seeded layout: 47-bit user space, keep clear of the usual mmap and brk areas
+  for (int a = 0; a < NARENA; ++a)
+    {
+      uintptr_t hint = 0x100000000000ULL + ((uintptr_t) a << 40) + ((uintptr_t) g_rng.below(1u << 20) << 16);
+      void *m = mmap((void *) hint, ARENA_BYTES, PROT_READ | PROT_WRITE, MAP_PRIVATE | MAP_ANONYMOUS | MAP_NORESERVE | MAP_FIXED_NOREPLACE, -1, 0);
+      if (m == MAP_FAILED) m = mmap((void *) hint, ARENA_BYTES, PROT_READ | PROT_WRITE, MAP_PRIVATE | MAP_ANONYMOUS | MAP_NORESERVE, -1, 0);
+      if (m == MAP_FAILED) { static const char e[] = "SIM-M: cannot reserve the arena\n"; ssize_t r = write(2, e, sizeof e - 1); (void) r; _exit(116); }
+      madvise(m, ARENA_BYTES, MADV_NOHUGEPAGE);
+      g_base[a] = (char *) m; g_end[a] = g_base[a] + ARENA_BYTES;
+      g_cur[a] = g_base[a] + (size_t) g_rng.below(4096) * 16;
+    }
+  g_reuse_mode = (int) g_rng.below(3);
+  g_poison = poison != 0;
+  static const int bytes[] = { 0x00, 0xaa, 0x55, 0xff, 0xcd, 0x7f };
+  g_poison_new = bytes[g_rng.below(6)];
+  g_poison_free = bytes[g_rng.below(6)];
+  g_active = true;
+}
+
+void simalloc_stats(long *allocs, long *bytes, uint64_t *addr_hash)
+{ *allocs = g_allocs; *bytes = g_bytes; *addr_hash = g_active ? g_addr_hash : 0; }
+
+extern "C" {
+
+__attribute__((visibility("default"))) void *malloc(size_t n)
+{
+  if (!g_active) return __libc_malloc(n);
+  lock(); void *p = alloc_block(n, 16); unlock();
+  return p;
+}
+
+__attribute__((visibility("default"))) void free(void *p)
+{
+  if (!p) return;
+  if (g_active && ours(p)) { lock(); free_block(p); unlock(); return; }
+  __libc_free(p);
+}
+
+__attribute__((visibility("default"))) void *calloc(size_t a, size_t b)
+{
+  if (!g_active) return __libc_calloc(a, b);
+  size_t n;
+  if (__builtin_mul_overflow(a, b, &n)) { errno = ENOMEM; return 0; }
+  lock(); void *p = alloc_block(n, 16); unlock();
+  if (p) memset(p, 0, n);
+  return p;
+}
+
+__attribute__((visibility("default"))) void *realloc(void *p, size_t n)
+{
+  if (!g_active) return __libc_realloc(p, n);
+  if (!p) return malloc(n);
+  if (n == 0) { free(p); return 0; }
+  size_t old;
+  if (ours(p)) { old = ((Header *) ((char *) p - sizeof(Header)))->size; }
+  else old = g_real_usable ? g_real_usable(p) : 0;
+  lock(); void *q = alloc_block(n, 16); unlock();
+  if (!q) return 0;
+  memcpy(q, p, old < n ? old : n);
+  free(p);
+  return q;
+}
+
+__attribute__((visibility("default"))) void *memalign(size_t al, size_t n)
+{
+  if (!g_active) return __libc_memalign(al, n);
+  lock(); void *p = alloc_block(n, al); unlock();
+  return p;
+}
+
+__attribute__((visibility("default"))) void *aligned_alloc(size_t al, size_t n) { return memalign(al, n); }
+
+__attribute__((visibility("default"))) int posix_memalign(void **out, size_t al, size_t n)
+{
+  if (al < sizeof(void *) || (al & (al - 1))) return EINVAL;
+  void *p = memalign(al, n);
+  if (!p) return ENOMEM;
+  *out = p;
+  return 0;
+}
+
+__attribute__((visibility("default"))) void *valloc(size_t n) { return memalign(4096, n); }
+__attribute__((visibility("default"))) void *pvalloc(size_t n) { return memalign(4096, (n + 4095) & ~(size_t) 4095); }
+
+__attribute__((visibility("default"))) size_t malloc_usable_size(void *p)
+{
+  if (!p) return 0;
+  if (g_active && ours(p)) return usable(p);
+  if (!g_real_usable) g_real_usable = (size_t (*)(void *)) dlsym(RTLD_NEXT, "malloc_usable_size");
+  return g_real_usable ? g_real_usable(p) : 0;
+}
+
+} // extern "C"
